@@ -40,6 +40,7 @@ int app_load(const char *path)
 		else if(!strcmp(tok[0], "target")) p->target = vh_parse_u(tok[1]);
 		else if(!strcmp(tok[0], "seed")) p->seed = vh_parse_u(tok[1]);
 		else if(!strcmp(tok[0], "grid")) p->grid_exp = vh_parse_u(tok[1]);
+		else if(!strcmp(tok[0], "plmode")) p->plmode = vh_parse_u(tok[1]);
 		else if(!strcmp(tok[0], "stopat")) { p->stop_lp = vh_parse_u(tok[1]); p->stop_cnt = vh_parse_u(tok[2]); p->has_stop = 1; }
 		else if(!strcmp(tok[0], "ptarget")) {
 			if(!p->targets) {
@@ -88,11 +89,11 @@ static const struct app_row *lookup_row(uint64_t type, uint64_t cls)
 	return &empty;
 }
 
-static unsigned make_payload(uint64_t a, uint64_t j, uint64_t sz, unsigned char *out)
+static unsigned make_payload(uint64_t a, uint64_t j, uint64_t sz, uint64_t ty, unsigned char *out)
 {
 	uint64_t nw = (sz + 7) / 8, base = j * 16 + 1;
 	for(uint64_t k = 0; k < nw; ++k) {
-		uint64_t w = mix(a, base + k);
+		uint64_t w = (app_prog.plmode == 1 && k < 4) ? mix(ty + 1000, k + 1) : mix(a, base + k);
 		for(int b = 0; b < 8; ++b)
 			if(k * 8 + b < sz)
 				out[k * 8 + b] = (unsigned char)(w >> (8 * b));
@@ -138,7 +139,7 @@ void app_process(lp_id_t me, simtime_t now, unsigned type, const void *pl, unsig
 			const struct app_init *in = &app_prog.inits[i];
 			if(in->lp != me)
 				continue;
-			unsigned sz = make_payload(s->acc, j++, in->size, buf);
+			unsigned sz = make_payload(s->acc, j++, in->size, in->type, buf);
 			ScheduleNewEvent(me, app_ticks_to_time(in->ticks), (unsigned)in->type, sz ? buf : NULL, sz);
 		}
 		return;
@@ -213,7 +214,7 @@ void app_process(lp_id_t me, simtime_t now, unsigned type, const void *pl, unsig
 	for(int i = 0; i < r->nouts; ++i) {
 		const struct app_out *o = &r->outs[i];
 		uint64_t dest = o->rule == 0 ? me : o->rule == 1 ? o->arg % app_prog.lps : o->rule == 2 ? a % app_prog.lps : (me + o->arg) % app_prog.lps;
-		unsigned sz = make_payload(a, (uint64_t)i, o->size, buf);
+		unsigned sz = make_payload(a, (uint64_t)i, o->size, o->type, buf);
 		ScheduleNewEvent(dest, app_ticks_to_time(ticks + o->dt), (unsigned)o->type, sz ? buf : NULL, sz);
 	}
 }
